@@ -44,7 +44,29 @@ RECURSIVE NilParentSigs(_, _, _)
 NilParentSigs(M, obj, i) ==
   IF i > Len(M.fields) THEN ""
   ELSE (IF ParentTrig(M.fields[i], obj) # "" THEN Sig(M.fields[i]) \o ";" ELSE "") \o NilParentSigs(M, obj, i + 1)
-PanicSig(M, obj) == "panic nilparents=" \o NilParentSigs(M, obj, 1)
+\* ... at every depth: CopyTo walks the source, so the nested structs are the ones the source holds; CopyFrom builds nested
+\* structs afresh (their embedded pointers are nil whatever the target held), fresh = TRUE below the root
+RECURSIVE DeepNilParents(_, _, _)
+DeepNilParents(M, st, fresh) ==
+  LET Sub(F, v) == IF v.t \in {"ptr", "st"} THEN DeepNilParents(SubOf(F), Deref(v), fresh) \o NilParentSigs(SubOf(F), Deref(v), 1) ELSE ""
+      Fresh(F) == DeepNilParents(SubOf(F), SubOf(F).zero, TRUE) \o NilParentSigs(SubOf(F), SubOf(F).zero, 1)
+      RECURSIVE Elems(_, _, _)
+      Elems(F, e, j) == IF j > Len(e) THEN "" ELSE Sub(F, e[j]) \o Elems(F, e, j + 1)
+      RECURSIVE Keys(_, _, _)
+      Keys(F, m, ks) == IF ks = <<>> THEN "" ELSE (IF Head(ks) \in DOMAIN m THEN Sub(F, m[Head(ks)]) ELSE "") \o Keys(F, m, Tail(ks))
+      RECURSIVE Go(_)
+      Go(i) == IF i > Len(M.fields) THEN ""
+               ELSE LET F == M.fields[i]
+                        v == IF st.t = "st" /\ F.msg # NoMsg THEN SrcVal(F, st) ELSE Nil
+                    IN (IF F.msg = NoMsg \/ F.kind = "custom" THEN ""
+                        ELSE IF fresh THEN Fresh(F)
+                        ELSE IF F.kind = "obj" THEN Sub(F, v)
+                        ELSE IF F.kind = "objlist" /\ v.t = "seq" THEN Elems(F, v.e, 1)
+                        ELSE IF F.kind = "objmap" /\ v.t = "map" THEN Keys(F, v.m, <<"k1", "k2", "k3">>)
+                        ELSE "") \o Go(i + 1)
+  IN Go(1)
+PanicSig(M, obj) == "panic nilparents=" \o NilParentSigs(M, obj, 1) \o DeepNilParents(M, obj, FALSE)
+PanicSigFrom(M, obj) == "panic nilparents=" \o NilParentSigs(M, obj, 1) \o DeepNilParents(M, obj, TRUE)
 
 ---------------------------------------------------------------------------
 \* C03  CopyTo into an empty schema-typed object is total and schema-conformant
@@ -377,7 +399,7 @@ C05Sites(M, tv, obj, trig0) ==
 
 \* ctx: [M, tf (input), pre (target before), obj (target after), dg, pn]
 C05(ctx) ==
-     (IF ctx.pn THEN {[c |-> "C05.noerror", p |-> ctx.M.path, sig |-> PanicSig(ctx.M, ctx.pre)]} ELSE {})
+     (IF ctx.pn THEN {[c |-> "C05.noerror", p |-> ctx.M.path, sig |-> PanicSigFrom(ctx.M, ctx.pre)]} ELSE {})
   \cup (IF ~ctx.pn /\ HasError(ctx.dg) THEN {VG("C05.noerror", ctx.M.path)} ELSE {})
   \cup (IF ctx.pn THEN {} ELSE C05Sites(ctx.M, ctx.tf, ctx.obj, ""))
   \cup (IF ctx.pn THEN {} ELSE
@@ -471,7 +493,7 @@ C06From(ctx) ==
               NFg(GetPath(NF(M, ctx.obj), gp)) # NFg(GetPath(NF(M, SetPath(M.zero, gp, DecField(F, a))), gp))
            THEN {V("C06.from.rest_copied", F, "")} ELSE {}
         : i \in DOMAIN M.fields }
-  IN IF ctx.pn THEN {[c |-> "C06.from.nopanic", p |-> M.path, sig |-> PanicSig(M, ctx.pre)]}
+  IN IF ctx.pn THEN {[c |-> "C06.from.nopanic", p |-> M.path, sig |-> PanicSigFrom(M, ctx.pre)]}
      ELSE {V("C06.from.missing_once", F, "absent") : F \in {G \in miss : ~HasDiag(ctx.dg, "readMissing", G.path)}}
        \cup {V("C06.from.missing_once", F, "duplicate") : F \in {G \in miss : CountDiag(ctx.dg, "readMissing", G.path) > 1}}
        \cup {Unexpected("C06.from.missing_once", M, pth) : pth \in gotMissing \ missPaths}
